@@ -705,6 +705,7 @@ var surveyRsize = flag.Int("survey-rsize", 8, "register size for -survey")
 
 func main() {
 	run := vlib.Start("C01", "model_checking")
+	vlib.SilenceStdout()
 	if *survey {
 		doSurvey(*surveyRsize)
 		return
@@ -871,7 +872,7 @@ func doSurvey(rsize int) {
 	wg.Wait()
 	for _, r := range rows {
 		if r.res.notSimulable != "" {
-			fmt.Printf("%-8s NOT-SIMULABLE %s\n", r.op, r.res.notSimulable)
+			fmt.Fprintf(vlib.Out, "%-8s NOT-SIMULABLE %s\n", r.op, r.res.notSimulable)
 			continue
 		}
 		var ks []string
@@ -883,15 +884,24 @@ func doSurvey(rsize int) {
 		if len(ks) > 0 {
 			status = "DISAGREE"
 		}
-		fmt.Printf("%-8s %s states=%d trans=%d uses=%d\n", r.op, status, r.res.states, r.res.transitions, r.res.opsSeen[r.op])
+		fmt.Fprintf(vlib.Out, "%-8s %s states=%d trans=%d uses=%d\n", r.op, status, r.res.states, r.res.transitions, r.res.opsSeen[r.op])
 		for _, k := range ks {
 			mm := r.res.mismatches[k]
-			fmt.Printf("         %s: `%s` in=%v: %s\n", k, strings.Join(mm.Program, "; "), mm.Inputs[len(mm.Inputs)-1], mm.Detail)
+			fmt.Fprintf(vlib.Out, "         %s: `%s` in=%v: %s\n", k, strings.Join(mm.Program, "; "), mm.Inputs[len(mm.Inputs)-1], mm.Detail)
 		}
 	}
 }
 
 func doReplay(run *vlib.Run) {
+	var kind struct {
+		Kind string   `json:"kind"`
+		Body []string `json:"body"`
+	}
+	if _, err := vlib.LoadReplay(run.Replay, &kind); err == nil && kind.Kind == "hwopt" {
+		r := hwOne(kind.Body)
+		fmt.Fprintf(vlib.Out, "program %v: skipped=%q mismatch=%q pruned=%v\n", kind.Body, r.skipped, r.mismatch, r.prunedArms)
+		return
+	}
 	var rp struct {
 		Config  config     `json:"config"`
 		Program []string   `json:"program"`
@@ -902,7 +912,7 @@ func doReplay(run *vlib.Run) {
 	}
 	h, m, err := buildHDL(rp.Config.Spec, nil)
 	if err != nil {
-		fmt.Println("not simulable:", err)
+		fmt.Fprintln(vlib.Out, "not simulable:", err)
 		return
 	}
 	s, _ := newSim(m)
@@ -911,7 +921,7 @@ func doReplay(run *vlib.Run) {
 	for i, line := range rp.Program {
 		word, err := m.Arch.Assembler_process_line([]byte(line))
 		if err != nil {
-			fmt.Println("assemble:", err)
+			fmt.Fprintln(vlib.Out, "assemble:", err)
 			return
 		}
 		in := []uint64{}
@@ -922,13 +932,13 @@ func doReplay(run *vlib.Run) {
 			in = append(in, 0)
 		}
 		nx, mm, fatal := w.step(rp.Config, st, letter{Asm: line, Word: word, In: in})
-		fmt.Printf("step %d `%s` in=%v: sim %s\n", i, line, in, nx.sk)
+		fmt.Fprintf(vlib.Out, "step %d `%s` in=%v: sim %s\n", i, line, in, nx.sk)
 		if fatal != nil {
-			fmt.Println("hdl error:", fatal)
+			fmt.Fprintln(vlib.Out, "hdl error:", fatal)
 			return
 		}
 		if mm != nil {
-			fmt.Printf("  MISMATCH %s: %s\n", mm.class, mm.detail)
+			fmt.Fprintf(vlib.Out, "  MISMATCH %s: %s\n", mm.class, mm.detail)
 			run.Report("C01|replay|"+mm.class, mm.detail, rp)
 			break
 		}
